@@ -324,6 +324,30 @@ Proof.
   - apply (Hfold _ (fun m => m)).
 Qed.
 
+(* the clusters of reference nodes that no group names are left alone *)
+Definition pframe (sr : st) (phi phi' : list (nat * option nat)) : Prop :=
+  forall k0 c, k0 < length (s_nodes sr) -> ~ In k0 (flat_map grow_node (s_groups sr)) ->
+               nth_error phi k0 = Some c -> nth_error phi' k0 = Some c.
+
+Lemma pframe_refl sr phi : pframe sr phi phi.
+Proof. intros k0 c _ _ H. exact H. Qed.
+
+Lemma gframe_grow sr sr' k0 : gframe sr sr' -> k0 < length (s_nodes sr) ->
+  ~ In k0 (flat_map grow_node (s_groups sr)) -> ~ In k0 (flat_map grow_node (s_groups sr')).
+Proof.
+  intros [F1 F2 F3] Hlt Hn Hin. apply in_flat_map in Hin as (x' & Hx' & Hk). apply In_nth_error in Hx' as (g & Hg).
+  assert (Hgl : g < length (s_groups sr)) by (rewrite <- F1; apply nth_error_Some; congruence).
+  destruct (nth_error (s_groups sr) g) as [x|] eqn:Ex; [|apply nth_error_None in Ex; lia].
+  destruct (F3 g x Ex) as [H|(ps & k & -> & H & Hk')].
+  - rewrite Hg in H. injection H as ->. apply Hn. apply in_flat_map. exists x. split; [eapply nth_error_In, Ex|exact Hk].
+  - rewrite Hg in H. injection H as ->. cbn in Hk. destruct Hk as [<-|[]]. lia.
+Qed.
+
+Lemma pframe_trans sr sr' phi phi' phi'' : gframe sr sr' -> pframe sr phi phi' -> pframe sr' phi' phi'' -> pframe sr phi phi''.
+Proof.
+  intros Hf H1 H2 k0 c Hlt Hn Hc. apply H2; [destruct Hf; lia|eapply gframe_grow; eauto|apply H1; assumption].
+Qed.
+
 (* ---------------------------------------------------------------- add_exit *)
 Lemma fold_left_none {X} (f : st -> X -> option st) l :
   fold_left (fun os x => match os with Some s' => f s' x | None => None end) l None = None.
@@ -332,11 +356,12 @@ Proof. induction l as [|a r IH]; cbn; [reflexivity|exact IH]. Qed.
 Lemma add_exit_sim fuel : forall phi sr sc g c tgt dd sr' sc',
   Sim phi sr sc -> StOK fresh GP sc -> c_cname c = [] -> dest_sim phi (cuu sc) tgt dd ->
   add_exit nab fuel sr g c tgt = Some sr' -> cadd_exit fresh fuel sc g dd c = Ok sc' ->
-  exists phi', Sim phi' sr' sc' /\ phi_le phi phi' /\ StOK fresh GP sc' /\ ext sc sc' /\ gframe sr sr'.
+  exists phi', Sim phi' sr' sc' /\ phi_le phi phi' /\ StOK fresh GP sc' /\ ext sc sc' /\ gframe sr sr' /\ pframe sr phi phi'.
 Proof.
   induction fuel as [|f IH]; intros phi sr sc g c tgt dd sr' sc' Hsim Hst Hcn Hd Hr Hc; [discriminate|].
   destruct (cadd_exit_ok fresh GP fresh_inj (S f) sc g dd c sc' Hst (dest_sim_ok phi sc tgt dd Hd) Hc) as [Hst' Hext].
-  assert (Hgoal : exists phi', Sim phi' sr' sc' /\ phi_le phi phi' /\ gframe sr sr'); [|destruct Hgoal as (phi' & H1 & H2 & H3); exists phi'; auto].
+  assert (Hgoal : exists phi', Sim phi' sr' sc' /\ phi_le phi phi' /\ gframe sr sr' /\ pframe sr phi phi');
+    [|destruct Hgoal as (phi' & H1 & H2 & H3 & H4); exists phi'; auto 10].
   cbn [add_exit cadd_exit] in Hr, Hc.
   pose proof (sim_groups _ _ _ Hsim) as Hg.
   destruct (nth_error (s_groups sr) g) as [x|] eqn:Ex; [|discriminate].
@@ -346,35 +371,37 @@ Proof.
              Forall (fun p => c_cname (snd p) = []) ps -> Sim phi0 s0 c0 -> StOK fresh GP c0 -> dest_sim phi0 (cuu c0) t0 d0 ->
              fold_left (fun os p => match os with Some s' => add_exit nab f s' (fst p) (snd p) t0 | None => None end) ps (Some s0) = Some s1 ->
              foldM (fun s' p => cadd_exit fresh f s' (fst p) d0 (snd p)) ps c0 = Ok c1 ->
-             exists phi', Sim phi' s1 c1 /\ phi_le phi0 phi' /\ StOK fresh GP c1 /\ ext c0 c1 /\ gframe s0 s1).
+             exists phi', Sim phi' s1 c1 /\ phi_le phi0 phi' /\ StOK fresh GP c1 /\ ext c0 c1 /\ gframe s0 s1 /\ pframe s0 phi0 phi').
   { induction ps as [|p r IHr]; intros t0 d0 phi0 s0 c0 s1 c1 Hps Hs0 Ht0 Hd0; cbn.
     - intros H1 H2. injection H1 as <-. injection H2 as <-. exists phi0. split; [exact Hs0|]. split; [apply phi_le_refl|].
-      split; [exact Ht0|]. split; [apply ext_refl|apply gframe_refl].
+      split; [exact Ht0|]. split; [apply ext_refl|]. split; [apply gframe_refl|apply pframe_refl].
     - inversion Hps as [|? ? Hp Hr']; subst.
       destruct (add_exit nab f s0 (fst p) (snd p) t0) as [s2|] eqn:E1; [|rewrite fold_left_none; discriminate].
       destruct (cadd_exit fresh f c0 (fst p) d0 (snd p)) as [c2|e] eqn:E2; [|discriminate].
-      intros H1 H2. destruct (IH phi0 s0 c0 (fst p) (snd p) t0 d0 s2 c2 Hs0 Ht0 Hp Hd0 E1 E2) as (phi2 & Hs2 & Hle2 & Ht2 & He2 & Hf2).
-      destruct (IHr t0 d0 phi2 s2 c2 s1 c1 Hr' Hs2 Ht2) as (phi3 & Hs3 & Hle3 & Ht3 & He3 & Hf3); [|exact H1|exact H2|].
+      intros H1 H2. destruct (IH phi0 s0 c0 (fst p) (snd p) t0 d0 s2 c2 Hs0 Ht0 Hp Hd0 E1 E2) as (phi2 & Hs2 & Hle2 & Ht2 & He2 & Hf2 & Hp2).
+      destruct (IHr t0 d0 phi2 s2 c2 s1 c1 Hr' Hs2 Ht2) as (phi3 & Hs3 & Hle3 & Ht3 & He3 & Hf3 & Hp3); [|exact H1|exact H2|].
       + eapply dest_sim_mono; [exact Hle2|apply ext_grows, He2|exact Hd0].
       + exists phi3. split; [exact Hs3|]. split; [eapply phi_le_trans; eauto|]. split; [exact Ht3|].
-        split; [eapply ext_trans; eauto|eapply gframe_trans; eauto]. }
+        split; [eapply ext_trans; eauto|]. split; [eapply gframe_trans; eauto|eapply pframe_trans; eauto]. }
   destruct x as [k cls|ps [k|]|ms].
   - (* a row group *)
     apply group_sim_row_inv in Hxy as (c0 & rt & nd & -> & Hc0 & Hnd & Hcl).
     destruct (nth_error (s_nodes sr) k) as [n|] eqn:En; [|discriminate].
     destruct (apply_row_edge nab n cls c tgt) as [n'|] eqn:Ea; [|discriminate]. injection Hr as <-.
     destruct (row_edge_sim fresh GP fresh_inj fresh_not_sentinel phi sr sc g k cls n tgt dd c n' _ _ rt sc' Hsim Hst Ex Ey En Hcn Hd Ea Hc)
-      as (phi' & H1 & H2 & _). exists phi'. split; [exact H1|]. split; [exact H2|apply gframe_set_node].
+      as (phi' & H1 & H2 & H3). exists phi'. split; [exact H1|]. split; [exact H2|]. split; [apply gframe_set_node|].
+    intros k0 c1 _ Hn0 Hc1. apply H3; [|exact Hc1]. intros ->. apply Hn0. apply in_flat_map. exists (GRow k cls).
+    split; [eapply nth_error_In, Ex|left; reflexivity].
   - (* a no_op that has its decision node *)
     apply group_sim_noop_router_inv in Hxy as (k1 & ndq & rq & -> & Hps & Hk & Hnq & Hbq).
     destruct (nth_error (s_nodes sr) k) as [n|] eqn:En; [|discriminate].
     destruct (rn_dec n) as [d|] eqn:Ed; [|discriminate]. injection Hr as <-.
-    exists phi. split; [|split; [apply phi_le_refl|apply gframe_set_node]].
+    exists phi. split; [|split; [apply phi_le_refl|split; [apply gframe_set_node|apply pframe_refl]]].
     eapply noop_edge_sim; eauto. eapply (sim_acts _ _ _ Hsim); eauto.
   - (* a no_op without decision node *)
     apply group_sim_noop_inv in Hxy as [-> Hps].
     destruct (cond_blank c).
-    + destruct (Hfold ps tgt dd phi sr sc sr' sc' Hps Hsim Hst Hd Hr Hc) as (phi' & H1 & H2 & _ & _ & H3). exists phi'. auto.
+    + destruct (Hfold ps tgt dd phi sr sc sr' sc' Hps Hsim Hst Hd Hr Hc) as (phi' & H1 & H2 & _ & _ & H3 & H4). exists phi'. auto.
     + destruct (c_variable c) as [|v0 v] eqn:Ev; [discriminate|].
       destruct (new_switch_node fresh (cs_next sc) [] (v0 :: v) None None) as [[nn' n1]|e] eqn:En; [|discriminate].
       (* the decision node on both sides *)
@@ -416,7 +443,7 @@ Proof.
       { cbn. split; [apply fresh_not_sentinel|]. exists (j, None). split.
         - unfold phi1, kr. rewrite <- (sim_len _ _ _ Hsim). apply nth_error_app2_same.
         - cbn. unfold cuu, sc1. cbn. rewrite map_app. cbn. unfold j. rewrite <- (map_length cn_uuid (cs_nodes sc)). apply nth_error_app2_same. }
-      destruct (Hfold ps (DNode kr) (Some (cn_uuid nn)) phi1 sr1 sc1 sr2 sc2 Hps Hsim1 Hst1 Hd1 Ef1 Ef2) as (phi2 & Hs2 & Hle2 & Ht2 & He2 & Hf2).
+      destruct (Hfold ps (DNode kr) (Some (cn_uuid nn)) phi1 sr1 sc1 sr2 sc2 Hps Hsim1 Hst1 Hd1 Ef1 Ef2) as (phi2 & Hs2 & Hle2 & Ht2 & He2 & Hf2 & Hp2).
       (* the edge itself *)
       destruct (nth_error (s_nodes sr2) kr) as [n2|] eqn:En2; [|discriminate].
       destruct (rn_dec n2) as [d2|] eqn:Ed2; [|discriminate]. injection Hr1 as <-.
@@ -432,20 +459,23 @@ Proof.
         - unfold phi1, kr. rewrite <- (sim_len _ _ _ Hsim). apply nth_error_app2_same.
         - rewrite Hk2 in Hc2. injection Hc2 as <-. exact Ec2. }
       subst k1.
-      exists phi2. split; [|split].
+      assert (Hf01 : gframe sr sr1).
+      { constructor; cbn.
+        - apply update_length.
+        - rewrite app_length. lia.
+        - intros g0 x0 Hx0. destruct (Nat.eq_dec g0 g) as [->|Hne].
+          + right. assert (x0 = GNoOp ps None) by congruence. subst x0. exists ps, kr. split; [reflexivity|].
+            split; [eapply update_nth_same; eauto|unfold kr; lia].
+          + left. rewrite update_nth_other by exact Hne. exact Hx0. }
+      exists phi2. split; [|split; [|split]].
       * eapply noop_edge_sim; eauto.
         -- eapply (sim_acts _ _ _ Hs2); eauto.
         -- eapply dest_sim_mono; [eapply phi_le_trans; [apply phi_le_app|exact Hle2]| |exact Hd].
            eapply grows_trans; [|apply ext_grows, He2]. unfold cuu, sc1. cbn. rewrite map_app. apply grows_app.
       * eapply phi_le_trans; [apply phi_le_app|exact Hle2].
-      * eapply gframe_trans; [|eapply gframe_trans; [exact Hf2|apply gframe_set_node]].
-        constructor; cbn.
-        -- apply update_length.
-        -- rewrite app_length. lia.
-        -- intros g0 x0 Hx0. destruct (Nat.eq_dec g0 g) as [->|Hne].
-           ++ right. assert (x0 = GNoOp ps None) by congruence. subst x0. exists ps, kr. split; [reflexivity|].
-              split; [eapply update_nth_same; eauto|unfold kr; lia].
-           ++ left. rewrite update_nth_other by exact Hne. exact Hx0.
+      * eapply gframe_trans; [exact Hf01|eapply gframe_trans; [exact Hf2|apply gframe_set_node]].
+      * eapply (pframe_trans sr sr1 phi phi1 phi2 Hf01); [|exact Hp2].
+        intros k0 c1 _ _ Hc1. unfold phi1. apply nth_error_app_l. exact Hc1.
   - (* a block *)
     apply group_sim_block_inv in Hxy as ->.
     destruct (negb (cond_blank c)); [discriminate|].
@@ -465,6 +495,6 @@ Proof.
           * eapply dest_sim_mono; [apply phi_le_refl|apply ext_grows, He2|exact Hd0].
           * split; [exact H1|eapply gframe_trans; [apply connect_loose_frame|exact H2]].
         + intros H. apply (IHr _ _ _ Hs0 Ht0 Hd0 H). }
-    destruct (Hb ms sr sc sc' Hsim Hst Hd Hc) as [H1 H2]. split; [exact H1|split; [apply phi_le_refl|exact H2]].
+    destruct (Hb ms sr sc sc' Hsim Hst Hd Hc) as [H1 H2]. split; [exact H1|split; [apply phi_le_refl|split; [exact H2|apply pframe_refl]]].
 Qed.
 End Group.
